@@ -5,6 +5,7 @@ cd /verif || exit 2
 miss=0
 for d in seeded/*/; do
   name=$(basename "$d")
+  if python3 -c "import json,sys;sys.exit(0 if json.load(open('$d/meta.json')).get('retired') else 1)"; then echo "RETIRED $name"; continue; fi
   prop=$(python3 -c "import json,sys;print(json.load(open('$d/meta.json'))['breaks_property'])")
   out=$(tools/seedtest.sh "/verif/${d}patch.diff" "$prop" quick 2>&1); rc=$?
   case $rc in
